@@ -243,6 +243,7 @@ impl Scratch {
                     std::os::unix::fs::symlink(ws.join("does/not/exist.rs"), &p).expect("symlink")
                 }
                 FileKind::Directory => std::fs::create_dir_all(&p).expect("dir"),
+                FileKind::SymlinkLoop => std::os::unix::fs::symlink("..", &p).expect("symlink loop"),
                 FileKind::SymlinkToFile => {
                     // relative link text, as a checkout would contain it
                     let target = f.chunks.first().cloned().unwrap_or_default();
@@ -456,6 +457,19 @@ pub fn run_invocation(scratch: &mut Scratch, tree: &Tree, inv: &Inv, out: &Path)
     }
     if inv.fresh_out {
         scratch.clear_dir(out);
+    }
+    if inv.obstacle == 1 {
+        match inv.mode {
+            Mode::File => {
+                let _ = std::fs::create_dir_all(out.join(inv.out_name()));
+            }
+            Mode::Folder => {
+                if let Some(parent) = out.parent() {
+                    let _ = std::fs::create_dir_all(parent);
+                }
+                let _ = std::fs::write(out, b"in the way\n");
+            }
+        }
     }
     let before = snapshot(out);
     let argv = argv_for(inv, &scratch.ws(), out, &cfg_path);
